@@ -376,7 +376,8 @@ CLAIMED["C13"] = {
             "channel resolved, with the repaired F1 window proved recovered. Exception F2 (dust fail-back lost after a "
             "stop between InsertConfirmedCommitSet and MarkChannelClosed with a dangling HTLC; known finding, shares its "
             "root cause with C12-F1) is the exact hypothesis of (1) and refuted by a witness. Tie: the real "
-            "ChannelArbitrator on the real bolt arbitrator log behind a stop-the-world kvdb wrapper, 12 close scenarios, "
+            "ChannelArbitrator on the real bolt arbitrator log behind a stop-the-world kvdb wrapper, 14 close scenarios "
+            "(two with different HTLCs at the same output index on different commitments of the persisted commit set), "
             "a stop after EVERY committed transaction plus repeated stops; every database snapshot sequence must be a "
             "model path, final database and output sets equal, and the implementation is compared with its own "
             "uninterrupted run. Finding C13-F1 was found by this check and repaired in /repo (2099ea4).",
